@@ -385,3 +385,4 @@ def run(ctx) -> None:
     from . import C14
 
     C14.own_key_rule(ctx, 'C06.parse-never-fails')
+    shared.argname_scope(ctx, ('forml.io.dsl.parser', 'forml.provider.feed'), floor=2)
